@@ -311,8 +311,19 @@ func checkToolchain(c *Ctx, prop string) error {
 			byCmd[k] = append(byCmd[k], tc)
 		}
 		var keep []toolCase
-		per := quota/len(byCmd) + 1
-		for _, l := range byCmd {
+		// half of the budget for the single-target commands, half for the --all commands
+		nAll := 0
+		for k := range byCmd {
+			if strings.Contains(strings.SplitN(k, " ", 2)[0], "-all") {
+				nAll++
+			}
+		}
+		perAll, perOne := quota/2/(nAll+1)+1, quota/2/(len(byCmd)-nAll+1)+1
+		for k, l := range byCmd {
+			per := perOne
+			if strings.Contains(strings.SplitN(k, " ", 2)[0], "-all") {
+				per = perAll
+			}
 			step := len(l)/per + 1
 			off := int(c.Seed) % step
 			for i := off; i < len(l); i += step {
